@@ -539,6 +539,34 @@ def exhaustive_pq(maxlen):
             yield lines
 
 
+def shape_stream():
+    """Deterministic heap-shape stream: queues of 7..15 entries built from a few priority patterns,
+    one middle removal (remove / find-remove / reschedule) at every position, then a full drain.
+    Heap-repair mistakes after a middle removal need a particular layout; this enumerates them."""
+    patterns = [lambda i: -1 if i % 3 == 0 else 0, lambda i: i % 2, lambda i: (i * 7) % 3 - 1,
+                lambda i: 1 - (i % 3), lambda i: 0 if i < 4 else -1]
+    for n in (7, 8, 10, 11, 13, 15):
+        for pi, pat in enumerate(patterns):
+            for k in range(n):
+                for how in ("remove", "find", "resched"):
+                    lines = ["pq 0 new"] + [f"pq 0 add {pat(i)} {i + 1}" for i in range(n)]
+                    if how == "remove":
+                        lines.append(f"pq 0 remove {k + 1}")
+                    elif how == "find":
+                        lines.append(f"pq 0 find {k + 1} 1")
+                    else:
+                        lines.append(f"pq 0 resched {k + 1} {1 if pat(k) < 1 else -1}")
+                    lines.append("pq 0 popitem")
+                    lines.append("pq 0 drain")
+                    yield lines
+                for how in ("remove", "find"):
+                    lines = ["pos 0 new 0"] + [f"pos 0 appendpri {i + 1} {pat(i)}" for i in range(n)]
+                    lines.append(f"pos 0 remove {k + 1}" if how == "remove" else f"pos 0 find {k + 1} 1")
+                    lines.append("pos 0 popleft")
+                    lines.append("pos 0 drain")
+                    yield lines
+
+
 def exhaustive_pos(maxlen):
     """All PosPriorityQueue histories up to `maxlen` ops over a small alphabet (boosting off)."""
     alpha = ["app 0", "app 1", "app -1", "ins 0", "ins 1", "ins 2", "pop", "rm 0", "res 0 1", "res 1 -1", "rall"]
@@ -572,6 +600,7 @@ def exhaustive_pos(maxlen):
 def run(ctx):
     rng = ctx.rng
     explore(ctx, corpus_cases(), label="corpus: ")
+    explore(ctx, list(shape_stream()), label="heap shapes: ")
     if ctx.thorough():
         n_pq, n_pos, ln_max, n_long = 6000, 6000, 40, 150
     else:
